@@ -7,4 +7,12 @@ var vHarnesses = map[string]func(){
 	"VH_T1":    VH_T1,
 	"VH_C01A":  VH_C01A,
 	"VH_C01B":  VH_C01B,
+	"VH_C11":   VH_C11,
+	"VH_C12":   VH_C12,
+	"VH_C19":   VH_C19,
+	"VH_C18":   VH_C18,
+	"VH_C17R":  VH_C17R,
+	"VH_C17N":  VH_C17N,
+	"VH_C17T":  VH_C17T,
+	"VH_C17B":  VH_C17B,
 }
